@@ -320,6 +320,10 @@ def generate(rng, prop, tier):
         u = rng.random()
         if u < 0.68 or k == 0:
             ops.append({'op': 'call', 'entry': rng.choice(NAMES) if rng.random() < 0.4 else rng.choice(WEIGHTED), 'argseed': rng.randrange(1 << 30)})
+            if ops[-1]['entry'] == 'cdf_getter' and rng.random() < 0.7:
+                # a function was handed back: the caller changes the data it was built from and evaluates it again
+                ops.append({'op': 'scribble', 'target': 0, 'how': 'fill', 'last_args': True})
+                ops.append({'op': 'recheck', 'target': rng.randrange(1 << 30)})
         elif u < 0.93:
             ops.append({'op': 'scribble', 'target': rng.randrange(1 << 30), 'how': rng.choice(['fill', 'fill', 'negate', 'listop'])})
         else:
@@ -353,6 +357,7 @@ def execute(sc):
     closures = []         # (pool index of closure-producing call's args, post, digest)
     produced = False
     later_use = False
+    last_used = set()
 
     def check_pool(exempt, when, call_used=()):
         for i, p in enumerate(pool.objs):
@@ -376,6 +381,7 @@ def execute(sc):
                 stats['build_failed.' + name] = stats.get('build_failed.' + name, 0) + 1
                 continue
             used = set(ctx.used)
+            last_used = set(used)
             exempt = set()
             for m in call.mutable:
                 obj = call.args[m] if isinstance(m, int) else call.kwargs.get(m)
@@ -475,6 +481,8 @@ def execute(sc):
             if not pool.objs:
                 continue
             i = op['target'] % len(pool.objs)
+            if op.get('last_args') and last_used:
+                i = sorted(last_used)[0]
             p = pool.objs[i]
             arrs = [a for a in arrays_of(p['obj']) if a.flags.writeable]
             if op['how'] == 'listop' and isinstance(p['obj'], list) and p['obj']:
